@@ -24,11 +24,26 @@ struct Scenario {
   std::vector<int> subs;  // jobs per submitter
   std::string stop;       // stop | soft | hard
   bool race;              // stopper races with the submitters / starts after they were joined
+  // what the jobs do besides being Called / Dropped:
+  //   plain    nothing
+  //   dropsub  every job's Drop() submits a follow-up job to the same pool (like a dropped future core that passes the
+  //            cancellation on to a continuation living on the same executor)
+  //   callsub  the body of j0.0 submits J2 to the same pool and blocks until J2 was Called or Dropped (needs >= 2 workers)
+  //   callwait the body of j0.0 blocks until j1.0 (submitted by another thread) was Called or Dropped (>= 2 workers)
+  std::string kind = "plain";
+  std::size_t Jobs() const {
+    std::size_t n = 0;
+    for (auto k : subs) n += static_cast<std::size_t>(k);
+    return n;
+  }
+  std::size_t Virtual() const { return kind == "dropsub" ? Jobs() : kind == "callsub" ? 1 : 0; }
   std::string Header() const {
     std::string s;
     for (auto k : subs) s += (s.empty() ? "" : ",") + std::to_string(k);
-    return "pool workers=" + std::to_string(workers) + " subs=" + s + " stop=" + stop + " race=" + (race ? "1" : "0") +
-           " late=1";
+    std::string v;
+    for (std::size_t i = 0; i < Virtual(); ++i) v += (v.empty() ? "" : ",") + std::string("1");
+    return "pool workers=" + std::to_string(workers) + " subs=" + s + (v.empty() ? "" : " virt=" + v) + " stop=" + stop +
+           " race=" + (race ? "1" : "0") + " late=1" + (kind == "plain" ? "" : " kind=" + kind);
   }
 };
 
@@ -41,17 +56,53 @@ struct Obs {
 
 Obs gObs;
 
+// synchronisation private to the job bodies ("J1 waits until J2 is finished"): fiber mutex + condition variable,
+// traced under the names jm / jcv (skipped by the validator)
+struct Gate {
+  yaclib_std::mutex m;
+  yaclib_std::condition_variable cv;
+};
+Gate* gGate = nullptr;
+
 struct TJob final : yaclib::Job {
   std::string name;
+  yaclib::FairThreadPool* pool = nullptr;
+  TJob* on_drop_submit = nullptr;  // Drop() submits this job
+  TJob* on_call_submit = nullptr;  // Call() submits this job
+  TJob* wait_for = nullptr;        // Call() blocks until that job was Called or Dropped
+  bool signal = false;             // somebody may wait for this job
+  bool finished = false;
+
+  void Finish() {
+    if (!signal) return;
+    std::unique_lock lock{gGate->m};
+    finished = true;
+    lock.unlock();
+    gGate->cv.notify_all();
+  }
   void Call() noexcept final {
     ++gObs.called[name];
     gObs.call_order.push_back(name);
     if (gObs.wait_returned) gObs.call_after_wait = true;
     vx::Ev("call " + name);
+    if (on_call_submit != nullptr) {
+      vx::Ev("submit " + on_call_submit->name);
+      pool->Submit(*on_call_submit);
+    }
+    if (wait_for != nullptr) {
+      std::unique_lock lock{gGate->m};
+      while (!wait_for->finished) gGate->cv.wait(lock);
+    }
+    Finish();
   }
   void Drop() noexcept final {
     ++gObs.dropped[name];
     vx::Ev("drop " + name);
+    if (on_drop_submit != nullptr) {
+      vx::Ev("submit " + on_drop_submit->name);
+      pool->Submit(*on_drop_submit);
+    }
+    Finish();
   }
 };
 
@@ -89,7 +140,10 @@ std::string JobName(std::size_t i, int k) { return "j" + std::to_string(i) + "."
 void RunScenario(const Scenario& sc) {
   gObs = Obs{};
   gWorkersNamed = 0;
+  Gate gate;
+  gGate = &gate;
   std::vector<std::vector<std::unique_ptr<TJob>>> jobs(sc.subs.size());
+  std::vector<std::unique_ptr<TJob>> virt;  // jobs submitted from inside a Call / Drop: stream nReal + q, one job each
   for (std::size_t i = 0; i < sc.subs.size(); ++i) {
     for (int k = 0; k < sc.subs[i]; ++k) {
       auto j = std::make_unique<TJob>();
@@ -97,11 +151,37 @@ void RunScenario(const Scenario& sc) {
       jobs[i].push_back(std::move(j));
     }
   }
+  for (std::size_t q = 0; q < sc.Virtual(); ++q) {
+    auto j = std::make_unique<TJob>();
+    j->name = JobName(sc.subs.size() + q, 0);
+    virt.push_back(std::move(j));
+  }
   auto pool = yaclib::MakeFairThreadPool(static_cast<std::uint64_t>(sc.workers));
   {
     auto& ctx = *vx::gCtx;
     ctx.NameObj(&((*pool).*Get(MTag{})).GetImpl(), "m");
     ctx.NameObj(&((*pool).*Get(CTag{})), "cv");
+    ctx.NameObj(&gate.m.GetImpl(), "jm");
+    ctx.NameObj(&gate.cv, "jcv");
+  }
+  {
+    std::size_t q = 0;
+    for (auto& js : jobs) {
+      for (auto& j : js) {
+        j->pool = pool.Get();
+        if (sc.kind == "dropsub") j->on_drop_submit = virt[q].get();
+        ++q;
+      }
+    }
+    for (auto& j : virt) j->pool = pool.Get();
+    if (sc.kind == "callsub") {
+      jobs[0][0]->on_call_submit = virt[0].get();
+      jobs[0][0]->wait_for = virt[0].get();
+      virt[0]->signal = true;
+    } else if (sc.kind == "callwait") {
+      jobs[0][0]->wait_for = jobs[1][0].get();
+      jobs[1][0]->signal = true;
+    }
   }
   auto stopper = [&] {
     vx::Ev("stop " + sc.stop);
@@ -149,15 +229,25 @@ std::string Monitor(const Scenario& sc, bool done) {
   auto& trace = vx::gCtx->trace;
   if (!done) return "";  // reported as deadlock by the explorer: Wait never returned / a fiber is stuck
   for (auto& l : trace) {
-    if (Field(l, 1) == "M" && Field(l, 2) != "m" && Field(l, 2) != "cv") return "harness: unexpected sync object in " + l;
+    if (Field(l, 1) == "M" && Field(l, 2) != "m" && Field(l, 2) != "cv" && Field(l, 2) != "jm" && Field(l, 2) != "jcv")
+      return "harness: unexpected sync object in " + l;
     if (Field(l, 0) == "t?") return "harness: unnamed fiber in " + l;
   }
-  // every job Called xor Dropped, exactly once
-  for (std::size_t i = 0; i < sc.subs.size(); ++i) {
-    for (int k = 0; k < sc.subs[i]; ++k) {
-      auto n = JobName(i, k);
+  // every job handed to Submit is Called xor Dropped, exactly once (a follow-up job that nobody submitted: never)
+  {
+    std::vector<std::string> names;
+    for (std::size_t i = 0; i < sc.subs.size(); ++i)
+      for (int k = 0; k < sc.subs[i]; ++k) names.push_back(JobName(i, k));
+    for (std::size_t q = 0; q < sc.Virtual(); ++q) names.push_back(JobName(sc.subs.size() + q, 0));
+    for (auto& n : names) {
+      bool submitted = false;
+      for (auto& l : trace) {
+        if (Field(l, 1) == "E" && Field(l, 2) == "submit" && Field(l, 3) == n) submitted = true;
+      }
       int c = gObs.called[n], d = gObs.dropped[n];
-      if (c + d != 1) return "job " + n + " Called " + std::to_string(c) + " times and Dropped " + std::to_string(d) + " times";
+      if (c + d != (submitted ? 1 : 0))
+        return "job " + n + (submitted ? "" : " (never submitted)") + " Called " + std::to_string(c) + " times and Dropped " +
+               std::to_string(d) + " times";
     }
   }
   // after Wait returned nothing runs, and a later Submit is Dropped
@@ -277,20 +367,21 @@ void ResolveNotifies(std::vector<std::string>& trace) {
   }
 }
 
-std::vector<Scenario> Scenarios(const std::vector<std::pair<int, std::vector<int>>>& shapes) {
+std::vector<Scenario> Scenarios(const std::vector<std::pair<int, std::vector<int>>>& shapes, const std::string& kind = "plain") {
   std::vector<Scenario> out;
   for (auto& [n, s] : shapes)
     for (const char* stop : {"stop", "soft", "hard"})
-      for (bool race : {true, false}) out.push_back(Scenario{n, s, stop, race});
+      for (bool race : {true, false}) out.push_back(Scenario{n, s, stop, race, kind});
   return out;
 }
 
 }  // namespace
 
-// --set quick   : small shapes exhaustively under --pb (default 1); larger shapes exhaustively without preemption
-//                 (only the scheduler's choice of the next fiber at blocking points) and with random schedules
-// --set thorough: small shapes exhaustively under --pb (use 2), larger shapes under --pb - 1 (truncated at
-//                 --max-exec per scenario) and with random schedules
+// --set quick   : small shapes (plain and Drop-submits jobs) exhaustively under --pb (default 1); larger shapes and the
+//                 shapes with jobs that wait for other jobs exhaustively without preemption (only the scheduler's
+//                 choice of the next fiber at blocking points) and with random schedules
+// --set thorough: small shapes exhaustively under --pb (use 2), the others under --pb - 1 (truncated at --max-exec per
+//                 scenario) and with random schedules
 int main(int argc, char** argv) {
   auto opt = vx::ParseOptions(argc, argv);
   std::string set = "quick";
@@ -307,8 +398,13 @@ int main(int argc, char** argv) {
              return r;
            });
   };
-  const auto small = Scenarios({{1, {1}}, {1, {2}}, {2, {1}}, {1, {1, 1}}});
-  const auto large = Scenarios({{2, {2}}, {2, {1, 1}}, {1, {2, 1}}, {2, {2, 1}}});
+  auto cat = [](std::vector<Scenario> a, const std::vector<Scenario>& b) {
+    a.insert(a.end(), b.begin(), b.end());
+    return a;
+  };
+  const auto small = cat(Scenarios({{1, {1}}, {1, {2}}, {2, {1}}, {1, {1, 1}}}), Scenarios({{1, {1}}, {2, {1}}, {1, {2}}}, "dropsub"));
+  const auto large = cat(cat(Scenarios({{2, {2}}, {2, {1, 1}}, {1, {2, 1}}, {2, {2, 1}}}), Scenarios({{2, {2}}}, "dropsub")),
+                         cat(Scenarios({{2, {1}}, {2, {1, 1}}}, "callsub"), Scenarios({{2, {1, 1}}}, "callwait")));
   if (opt.has_replay || opt.mode == "random") {
     for (auto& sc : small) run(sc);
     for (auto& sc : large) run(sc);
